@@ -8,20 +8,24 @@ EXPLANATION = ('mirx interprets the real MIR of Message/Chunk/SliceRange (VecDeq
 
 def run(ctx):
     yield message_part(ctx)
+    if ctx.quick:
+        # the Kani cross-check on the real VecDeque / Arc is part of the thorough tier only: it adds nothing the mirx part has not decided, needs
+        # 2 minutes of SAT time on an idle machine and ran into its time limit when the machine was heavily loaded (an inconclusive quick check)
+        return
     yield kani_part(ctx, 'kani-crosscheck', appends={'src/message.rs': 'message.rs'}, pattern='c07_',
                     functions=['Message::{new, header, cut, remove_front, len, iter}', 'Chunk::{new, as_slice, len}'],
                     bounds='single chunk of 5 symbolic bytes cut at every n in 0..=5; header(2)+body(3) with remove_front(n) for every n in 0..=5; real VecDeque / Arc (no models)',
-                    outside='other operations (heap containers with symbolic shape exceed CBMC memory - measured)', jobs=4, timeout=900)
+                    outside='other operations (heap containers with symbolic shape exceed CBMC memory - measured)', jobs=4, timeout=2400)
 
 
 MANIFEST = {
     'engine': 'mirx + kani',
-    'technique': 'path-based symbolic execution of the real Message MIR with z3 against a byte-vector reference; Kani/CBMC cross-check on the real containers',
+    'technique': 'path-based symbolic execution of the real Message MIR with z3 against a byte-vector reference; Kani/CBMC cross-check on the real containers (thorough tier)',
     'level_text': 'For a pool of three real messages with different chunk structure (chunk boundaries, a window strictly inside a shared buffer, an empty chunk, clones sharing '
                   'storage) every sequence of 2 (quick) / 3 (thorough) operations over cut, remove_front, all six slice range forms, header, concatenate (other / clone of itself) '
                   'and clone with symbolic operands is executed on the real MIR; after each operation z3 decides for every pool member that len(), the bytes yielded by iter() '
                   'and == agree with the same operations on plain byte vectors (so members not operated on are unchanged despite shared storage), and that out-of-range '
                   'arguments panic exactly when the vector operation is undefined.',
-    'level_note': 'Bounded pool and sequence length; byte values symbolic. Trusts the mirx interpreter and its VecDeque/Arc/slice/iterator models (the Kani harnesses run two of the '
+    'level_note': 'Bounded pool and sequence length; byte values symbolic. Trusts the mirx interpreter and its VecDeque/Arc/slice/iterator models (in the thorough tier Kani harnesses run two of the '
                   'operations on the real containers as a cross-check), z3. Violations are re-run natively (real Message vs Vec<u8>) before being reported.',
 }
